@@ -207,10 +207,43 @@ def winpath_parts(data):
 
 
 FW = ["multidecoder.decoders.path.find_windows_path"]
+CLASSES["in_dot_q"] = "({x} == 46 or {x} == 63)"
 CLASSES["segdot"] = "((97 <= {x} <= 122) or {x} == 46 or {x} == 92)"
 _add("winpath_dots_and_filename", Tmpl(b" c:\\aaa\\", (2, "segdot"), b"\\bbb\\tool.exe "), winpath_parts, funcs=FW, timeout=600)
 _add("winpath_unc_host_and_filename", Tmpl(b" \\\\10.0.0.", (1, "digit"), b"\\sh\\", (2, "segdot"), b"\\a.dll "), winpath_parts, funcs=FW, timeout=600)
 
+
+
+def _winpath_host(off, host, typ):
+    """the host of a UNC / device-UNC path is reported as a child at its place in the path value (after every optional
+    '@SSL' / '@port' decoration), besides everything winpath_parts demands"""
+    def body(data):
+        r, _ = winpath_parts(data)
+        if r is not True:
+            return r, True
+        hits = find_windows_path(data)
+        if len(hits) != 1 or hits[0].start != 1:
+            return hx.fail("expected one path node starting at offset 1", data=data, hits=hits), True
+        h = hits[0]
+        want = list(host(data)) if callable(host) else list(host)
+        found = [c for c in h.children if c.type == typ]
+        if len(found) != 1:
+            return hx.fail("host child missing (or duplicated)", data=data, hit=h), True
+        c = found[0]
+        if not (c.start == off and c.end == off + len(want) and same_bytes(c.value, want)):
+            return hx.fail("host child is not the host text at its place in the path value", data=data, hit=h, child=c), True
+        return True, True
+    return body
+
+
+_add("winpath_unc_domain_ssl_port", Tmpl(b" \\\\srv.example.com@SSL@8", (1, "digit"), b"\\share\\..\\dir\\", (2, "lower"), b"a.dll "),
+     _winpath_host(2, b"srv.example.com", "network.domain"), funcs=FW, timeout=600)
+_add("winpath_unc_domain_port", Tmpl(b" \\\\srv.example.com@", (2, "digit"), b"\\share\\.\\", (2, "lower"), b"a.dll "),
+     _winpath_host(2, b"srv.example.com", "network.domain"), funcs=FW, timeout=600)
+_add("winpath_device_unc_domain", Tmpl(b" \\\\", (1, "in_dot_q"), b"\\UNC\\srv.example.com\\share\\", (2, "lower"), b"a\\..\\a.dll "),
+     _winpath_host(8, b"srv.example.com", "network.domain"), funcs=FW, timeout=600)
+_add("winpath_device_unc_ip", Tmpl(b" \\\\?\\unc\\10.0.0.", (1, "digit"), b"\\share\\", (2, "lower"), b"a\\a.dll "),
+     _winpath_host(8, lambda d: d[9:17], "network.ip"), funcs=FW, timeout=600)
 
 def normpath_abs_dots8(d0, d1, d2, d3, d4, d5, d6, d7):
     return _np(b"/" + bytes([d0, d1, d2, d3, d4, d5, d6, d7]))
